@@ -15,6 +15,16 @@ Proof.
     + rewrite Rmax_left by lra. reflexivity.
     + rewrite Rmax_right by lra. reflexivity.
 Qed.
+(* update_max_grad_norm as a whole: an update that follows no sample at all (empty Poisson batches only) leaves the norm as it is -- no division by zero, no nan --
+   and any other update is the rule *)
+Theorem ada_update_step_empty (C noisy lr gamma maxc minc : R) : ada_update_step C noisy 0 lr gamma maxc minc = C.
+Proof. unfold ada_update_step. cbn. unfold Reqb. destruct (Req_EM_T 0 0) as [_|H]; [reflexivity|now elim H]. Qed.
+Theorem ada_update_step_rule (C noisy n lr gamma maxc minc : R) : minc <= maxc -> n <> 0 ->
+  ada_update_step C noisy n lr gamma maxc minc = Rmax minc (Rmin maxc (C * exp (- lr * (noisy / n - gamma)))).
+Proof.
+  intros H Hn. unfold ada_update_step. cbn. unfold Reqb. destruct (Req_EM_T n 0) as [E|_]; [now elim Hn|].
+  now apply ada_update_rule.
+Qed.
 (* the new norm depends on the count only through the NOISY count *)
 Theorem count_noninterference (C raw raw' z z' n lr gamma maxc minc : R) :
   raw + z = raw' + z' -> ada_update C (raw + z) n lr gamma maxc minc = ada_update C (raw' + z') n lr gamma maxc minc.
